@@ -31,6 +31,15 @@ TYPE = "simplicity::types::Type::<'brand>::"
 CTX = "simplicity::types::context::Context::<'brand>::"
 LOCK = CTX + "lock"
 
+
+def lock_path(F):
+    """path of `Context::lock`: by name, or — renamed — the one function of types::context that locks a std Mutex"""
+    if LOCK in F.fns:
+        return LOCK
+    c = [p for p, f in F.fns.items() if p.startswith("simplicity::types::context::") and f.kind in ("Fn", "AssocFn")
+         and any(cs.name == "lock" and "std::sync::Mutex" in (cs.callee or "") for cs in f.calls())]
+    return c[0] if len(c) == 1 else None
+
 FINISH = dict(level="other",
               explanation="Provenance shapes of the 18 Arrow constructors compared with the typing rules of the Simplicity "
                           "language definition (up to variable renaming); dominator rules for the occurs check and bounded "
@@ -697,7 +706,8 @@ def run(ctx, rep):
     # ------------------------------------------------------------------ lock discipline
     cg = {p: list(v) for p, v in F.callgraph_rec().items()}
     lockers = set()
-    if LOCK not in F.fns:
+    lk = lock_path(F)
+    if lk is None:
         rep.anchor("C04.lock", LOCK)
     else:
         # functions that may reach Context::lock
@@ -705,7 +715,7 @@ def run(ctx, rep):
         for p, cs in cg.items():
             for c in cs:
                 rev.setdefault(c, set()).add(p)
-        stack = [LOCK]
+        stack = [lk]
         while stack:
             x = stack.pop()
             if x in lockers:
@@ -715,7 +725,7 @@ def run(ctx, rep):
         n_scopes = 0
         for f in F.fns.values():
             for cs in f.calls():
-                if cs.callee != LOCK:
+                if cs.callee != lk:
                     continue
                 n_scopes += 1
                 g = cs.dest[0]
